@@ -75,3 +75,57 @@ package fragswarm
 //@     invariant forall p, j :: 0 <= p && p < _i && 0 <= j && j < len(a.parts[p]) ==> buf[sumlen(lens(a.parts), p) + j] == a.parts[p][j]
 //@     invariant buf == nil || fresh(buf)
 //@     invariant forall p :: 0 <= p && p <= _i ==> 0 <= sumlen(lens(a.parts), p) && sumlen(lens(a.parts), p) <= len(buf)
+
+// ---- sending: fragments are consecutive, disjoint, cover the message and fit the inner MTU ------
+
+//@ spec func vecsize(l seq, n int) int = sumlen(l, n)
+//@
+//@ func keyForAddr
+//@   allowpanic
+//@
+//@ func (*swarm).Tell
+//@   noframe
+//@   fuel 5
+//@   requires s.msgIDs != nil
+//@   ensures sumlen(lens(data), len(data)) > old(s.mtu) ==> ret != nil
+//@   before call newMessage#0:
+//@     assert arg1 == 0 && arg2 == 1 && len(arg3) == size
+//@   before call Tell#0:
+//@     assert sumlen(lens(arg3), len(arg3)) <= underMTU + Overhead
+//@   fnspec MTU:
+//@     pure
+//@   fnspec MarshalText:
+//@     pure
+//@   fnspec Tell:
+//@     pure
+//@   loop 0:
+//@     invariant 0 <= part && part <= total
+//@     invariant 2 <= total && total <= 255 && underMTU >= 1
+//@     invariant (total - 1) * underMTU < size && size <= total * underMTU
+//@
+//@ func (*swarm).Tell$1
+//@   inline
+//@   before call newMessage:
+//@     assert arg0 == id && arg1 == part && arg2 == total
+//@     assert start == underMTU * part && 0 <= start && start <= end && end <= size
+//@     assert part < total - 1 ==> end == start + underMTU
+//@     assert part == total - 1 ==> end == size
+//@     assert end - start <= underMTU
+//@   before call Tell:
+//@     assert sumlen(lens(arg3), len(arg3)) <= underMTU + Overhead
+
+// ---- receiving: reassembly is keyed by (source address, message id) -----------------------------
+
+//@ func (*swarm).handleTell
+//@   noframe
+//@   requires s.aggs != nil && mapvals_nonnil(s.aggs)
+//@   fnspec MarshalText:
+//@     pure
+//@   before call keyForAddr:
+//@     assert ifaceval(arg0) == x.Src
+//@   before call (*aggregator).addPart:
+//@     assert arg1 == part && arg2 == totalParts && arg3 == data
+//@   before call (*TellHub).Deliver#0:
+//@     assert arg2.Src == x.Src && arg2.Dst == x.Dst && arg2.Payload == data
+//@   before call (*TellHub).Deliver#1:
+//@     assert arg2.Src == x.Src && arg2.Dst == x.Dst
